@@ -317,7 +317,7 @@ def run(ctx):
                 analyse_shape(ctx, repo, raw, dname, decoders[dname][1], fam_count, variant)
                 break
     for fam, need in MIN_SHAPES.items():
-        ctx.ob("shape/coverage", fam, fam_count.get(fam, 0) >= need, f"{fam_count.get(fam, 0)} shapes analysed, {need} confirmed by hand", "")
+        ctx.coverage("shape/coverage", fam, fam_count.get(fam, 0), need, f"{fam_count.get(fam, 0)} shapes analysed, {need} confirmed by hand", "")
     ctx.extra.pop("_seen", None)
     text_rules(ctx, repo)
     checksum_carry_rule(ctx, repo)
